@@ -42,7 +42,7 @@ impl Session {
 
     pub fn init(&mut self, diag: bool) {
         let id = self.id();
-        self.push(ClientOp::Initialize { id, diag });
+        self.push(ClientOp::Initialize { id, diag, enc: 0 });
     }
 
     pub fn initialized(&mut self) {
